@@ -3,6 +3,7 @@ CONSTANTS
     NH = 2
     MaxR = 1000000
     MaxFault = 1000000
+    MaxBreak = 1000000
     TrackFiles = FALSE
     Extras = TRUE
     SymBreak = FALSE
